@@ -307,6 +307,20 @@ func runCase(c *core.Case) {
 		c.Fail("C08/reply/refnum", "reference number field is %x", d.Ref)
 		return
 	}
+	if r.Chance(1, 5) {
+		// while the transfer is pending, another user looks at the downloader's client info (which lists the transfer)
+		if spy, err := refclient.LoginAs(srv, "10.8.0.9:1", "admin", "", "Curious"); err == nil {
+			if ul, ok := spy.Call(300); ok {
+				us, _ := refclient.UserList(ul)
+				for _, u := range us {
+					if string(u.Name) == "Downloader" {
+						spy.Call(303, rc.F(103, rc.U16(int(u.ID))))
+						c.Count("client_info_requests_while_the_transfer_was_pending", 1)
+					}
+				}
+			}
+		}
+	}
 	remaining := size - koff
 	if !d.HasSize || d.FileSize != remaining {
 		c.Fail("C08/reply/file-size", "%s (size %d, offset %d): reply announces file size %d (present %v), remaining data length is %d", mode, size, k, d.FileSize, d.HasSize, remaining)
